@@ -896,10 +896,10 @@ class Ackermannizer(IdentityDagWalker):
     def _generate_implication(self, option1: Sequence[FNode], option2: Sequence[FNode], f: FNode) -> FNode:
         left_conjuncts = set()
         for term1, term2 in zip(option1, option2):
-            if term1.is_function_application():
-                term1 = self._terms_dict[term1]
-            if term2.is_function_application():
-                term2 = self._terms_dict[term2]
+            # Replace all the applications, including the ones nested
+            # inside the arguments (memoized by the main walk)
+            term1 = self.walk(term1)
+            term2 = self.walk(term2)
             conjunct = self.mgr.EqualsOrIff(term1, term2)
             left_conjuncts.add(conjunct)
         left = self.mgr.And(left_conjuncts)
